@@ -285,3 +285,132 @@ def pretty(t):
 def short(t, n=160):
     s = T.pretty(t)
     return s if len(s) <= n else s[: n - 3] + "..."
+
+
+# --------------------------------------------------------------------------
+# one-variable interval reasoning (the only arithmetic reasoning used)
+
+def _lin1(t):
+    """cmp term -> (poly_without_constant, constant, op) with op in > >= == !=."""
+    a = is_cmp(t)
+    if a is None:
+        return None
+    d = a[2]
+    c = Fraction(0)
+    for m, k in d.num:
+        if m == ():
+            c = k
+    if d.den != (((), Fraction(1)),):
+        return None
+    p = d - const(c)
+    if not p.num:
+        return None
+    return p, c, a[1]
+
+
+def feasible(conds, integer=True):
+    """Satisfiability of a conjunction of comparisons by interval reasoning,
+    separately for each linear form (sound: True when unsure)."""
+    cs = []
+    for c in conds:
+        cs.extend(conjuncts(c))
+    groups = []  # (poly, [ (sgn, const, op) ])
+    for c in cs:
+        if T.is_pure_const(c):
+            if T.truth(c) is False:
+                return False
+            continue
+        for d in cs:
+            if d == T.mk_not(c):
+                return False
+        l = _lin1(c)
+        if l is None:
+            continue
+        p, a, o = l
+        for g in groups:
+            if T.same(g[0], p):
+                g[1].append((1, a, o))
+                break
+            if T.same(g[0], -p):
+                g[1].append((-1, a, o))
+                break
+        else:
+            groups.append((p, [(1, a, o)]))
+    for p, cons in groups:
+        isint = integer and int_valued(p, default_int)
+        lo, hi = None, None  # (value, strict)
+        eqs, nes = [], []
+        for sg, a, o in cons:
+            v = -a / sg
+            if o == "==":
+                eqs.append(v)
+            elif o == "!=":
+                nes.append(v)
+            else:
+                strict = o == ">"
+                if sg > 0:   # v' > / >= v
+                    if isint:
+                        b = (v.__floor__() + 1) if strict else -((-v).__floor__())
+                        b, strict = Fraction(b), False
+                    else:
+                        b = v
+                    if lo is None or b > lo[0] or (b == lo[0] and strict):
+                        lo = (b, strict)
+                else:        # v' < / <= v
+                    if isint:
+                        b = (-((-v).__floor__()) - 1) if strict else v.__floor__()
+                        b, strict = Fraction(b), False
+                    else:
+                        b = v
+                    if hi is None or b < hi[0] or (b == hi[0] and strict):
+                        hi = (b, strict)
+        if len(set(eqs)) > 1:
+            return False
+        def inside(x):
+            if lo is not None and (x < lo[0] or (x == lo[0] and lo[1])):
+                return False
+            if hi is not None and (x > hi[0] or (x == hi[0] and hi[1])):
+                return False
+            return x not in nes
+        if eqs:
+            if not inside(eqs[0]):
+                return False
+            continue
+        if lo is not None and hi is not None:
+            if lo[0] > hi[0] or (lo[0] == hi[0] and (lo[1] or hi[1])):
+                return False
+            if isint:
+                pts = [Fraction(k) for k in range(int(lo[0]), int(hi[0]) + 1)] if hi[0] - lo[0] <= 8 else None
+                if pts is not None and not any(inside(x) for x in pts):
+                    return False
+            elif lo[0] == hi[0] and lo[0] in nes:
+                return False
+    return True
+
+
+def contradict(c1, c2, integer=True):
+    return not feasible([c1, c2], integer)
+
+
+def feasible_leaves(t, extra=()):
+    for conds, leaf in ite_leaves(t):
+        if feasible(tuple(conds) + tuple(extra)):
+            yield conds, leaf
+
+
+def replace_term(t, old, new):
+    """Replace every occurrence of term `old` (a single-atom term) in t."""
+    oa = old.single_atom()
+    if oa is None:
+        return t
+    return T.subst(t, lambda a: new if a == oa else None)
+
+
+def validated(tr, which=0):
+    """The value returned by the first inlined _validate_input call, item `which`."""
+    for e in tr.events:
+        if e.kind == "return" and e.func.name == "_validate_input":
+            a = e.value.single_atom()
+            if a is not None and a[0] == "tuple":
+                return a[1][which]
+    return None
